@@ -155,6 +155,6 @@ pub fn run(ctx: &Ctx) {
     if ctx.is_worker || ctx.replay.is_some() {
         ctx.explore("metrics", 1, 1, case_strategy, oracle);
     } else {
-        run_confs(ctx, "metrics", ctx.tier.pick(8, 48), ctx.tier.pick(40, 160), true, &[]);
+        run_confs(ctx, "metrics", ctx.tier.pick(16, 96), ctx.tier.pick(60, 300), true, &[]);
     }
 }
